@@ -19,6 +19,7 @@ import PyttbModel.Lemmas.MLMask
 import PyttbModel.Lemmas.MLTuckerSparseCore
 import PyttbModel.Lemmas.MLReconstruct
 import PyttbModel.Props.C02KT
+import PyttbModel.Props.C02TS
 namespace Pyttb
 
 variable {α : Type}
